@@ -9,6 +9,7 @@ import (
 	"sort"
 	"strings"
 	"unicode"
+	"unicode/utf8"
 
 	"github.com/itchyny/gojq"
 )
@@ -185,6 +186,36 @@ type queryCase struct {
 	Src      string `json:"src"`
 	ExpStart int    `json:"exp_start"` // >= 0: an always-illegal lexeme was inserted here ...
 	ExpToken string `json:"exp_token,omitempty"`
+	// sources with ill-formed UTF-8 cannot travel in a JSON string: when Raw
+	// is set it is the source (and RawToken the expected token)
+	Raw      []byte `json:"raw,omitempty"`
+	RawToken []byte `json:"raw_token,omitempty"`
+}
+
+// portable moves a source that is not valid UTF-8 into the byte fields.
+func (c queryCase) portable() queryCase {
+	if !utf8.ValidString(c.Src) || !utf8.ValidString(c.ExpToken) {
+		c.Raw, c.RawToken = []byte(c.Src), []byte(c.ExpToken)
+		c.Src, c.ExpToken = "", ""
+	}
+	return c
+}
+
+// ill-formed UTF-8 where a token is expected: lone bytes, truncated
+// sequences, overlong and surrogate-shaped ones.  The lexer consumes exactly
+// one byte (utf8.DecodeRuneInString reports size 1 for every ill-formed
+// prefix), so the token is the first byte.
+var illFormed = []string{"\x80", "\xbf", "\xc0", "\xc3", "\xe3", "\xf0", "\xfe", "\xff",
+	"\xe3\x81", "\xf0\x9f\x98", "\xc0\x80", "\xed\xa0\x80"}
+
+// insertIllFormed puts seq (blanks around it, more text after it on the same
+// line) at a lexeme boundary of a valid source.
+func insertIllFormed(src string, at int, seq string) queryCase {
+	tail := src[at:]
+	if strings.TrimLeft(tail, " \t") == "" || tail[0] == '\n' || tail[0] == '\r' {
+		tail = "| .z " + tail
+	}
+	return queryCase{Src: src[:at] + " " + seq + " " + tail, ExpStart: at + 1, ExpToken: seq[:1]}
 }
 
 // always-illegal lexemes: text to insert (blanks are added around it) and the
@@ -247,6 +278,9 @@ func libCheck(c queryCase, r qref) (msg string, known string) {
 func checkQuery(c queryCase) string { return judgeQuery(c, nil) }
 
 func judgeQuery(c queryCase, note func(r qref, w want, known string)) string {
+	if c.Raw != nil {
+		c.Src, c.ExpToken = string(c.Raw), string(c.RawToken)
+	}
 	if c.Mode == "arg" {
 		lead := len(c.Src) - len(strings.TrimLeftFunc(c.Src, unicode.IsSpace))
 		c.Src = strings.TrimSpace(c.Src) // documented: cli.go trims the argument
@@ -276,8 +310,11 @@ func judgeQuery(c queryCase, note func(r qref, w want, known string)) string {
 	if r.atEOF {
 		p = len(c.Src)
 	}
+	if c.ExpStart >= 0 {
+		p = c.ExpStart // known by construction, whatever the library says
+	}
 	var w want
-	if msg == "" && known == "" {
+	if (msg == "" || c.ExpStart >= 0) && known == "" {
 		w = locate([]byte(c.Src), p)
 		if knownClass("C17/tab-column") && c.Mode != "lib" && strings.IndexByte(string(w.Text[:w.Pos]), '\t') >= 0 {
 			known = "C17/tab-column"
@@ -293,9 +330,10 @@ func judgeQuery(c queryCase, note func(r qref, w want, known string)) string {
 	if c.Mode == "lib" {
 		return msg
 	}
-	if msg != "" {
-		// the library clause is reported by the lib sub-check; the command
-		// cannot be judged against an inconsistent (Offset, Token)
+	if msg != "" && c.ExpStart < 0 {
+		// the library clause is reported by the lib sub-check; without a
+		// position known by construction the command cannot be judged
+		// against an inconsistent (Offset, Token)
 		rec.Discard("query/library-inconsistent")
 		return ""
 	}
